@@ -37,8 +37,8 @@ func (Quiet) Panic(a ...any)         { panic(fmt.Sprint(a...)) }
 func (Quiet) Panicf(t string, a ...any) {
 	panic(fmt.Sprintf(t, a...))
 }
-func (Quiet) Warn(...any)           {}
-func (Quiet) Warnf(string, ...any)  {}
+func (Quiet) Warn(...any)          {}
+func (Quiet) Warnf(string, ...any) {}
 
 var _ logging.Logger = Quiet{}
 
@@ -97,13 +97,13 @@ type Sec struct {
 
 // SecOpts configures NewSecCluster.
 type SecOpts struct {
-	N       int
-	Scheme  string
-	Opts    []core.RuntimeOption
-	Keys    []hotstuff.PrivateKey            // optional: reuse keys (index id-1)
-	Sender  func(id hotstuff.ID) core.Sender // optional
+	N        int
+	Scheme   string
+	Opts     []core.RuntimeOption
+	Keys     []hotstuff.PrivateKey                           // optional: reuse keys (index id-1)
+	Sender   func(id hotstuff.ID) core.Sender                // optional
 	WrapBase func(id hotstuff.ID, b crypto.Base) crypto.Base // optional wrapper around the scheme
-	Members int // number of configured replicas (default N); replicas N+1.. are not built
+	Members  int                                             // number of configured replicas (default N); replicas N+1.. are not built
 }
 
 // NewSecCluster builds N replicas' security components which all know each other's keys.
